@@ -143,7 +143,11 @@ static void mode_direct(void){
     if(len>=4){ int mp=vc_range(&r,1,24); float *hx=(float*)malloc(sizeof(float)*len), *hy=(float*)malloc(sizeof(float)*(len+mp-1)), *ho=(float*)malloc(sizeof(float)*mp); memcpy(hx,x,sizeof(float)*len); for(int i=0;i<len+mp-1;i++) hy[i]=y[i%(2*len)]; if(vc_chance(&r,1,2)&&mp>1) hy[len+mp-2]=INFINITY;
       celt_pitch_xcorr(hx,hy,ho,len,mp,arch); (void)celt_inner_prod(hx,hy,len,arch); { opus_val32 a,b; if(mp>1) dual_inner_prod(hx,hy,hy+mp-1,len,&a,&b,arch); } free(hx); free(hy); free(ho); vc_count("direct_exact_size_calls",1); }
     { int T=vc_range(&r,15,200); int N=(vc_range(&r,1,len)+3)&~3; /* the codec filters multiples of 4 samples */ static float cb[1600]; for(int i=0;i<1600;i++) cb[i]=sc*(float)(2*vc_unit(&r)-1); float *cx=cb+T+2+vc_below(&r,4); if(N+T+8<1500) comb_filter_const(cx,cx,T,N,0.3f,0.2f,0.1f,arch); }
-    { int N=vc_range(&r,2,176); int K=vc_range(&r,1,N<32?64:20); static float pv[200]; static int iy[200]; for(int i=0;i<N;i++) pv[i]=(float)vc_gauss(&r)*(vc_chance(&r,1,6)?1e-6f:1.f); op_pvq_search(pv,iy,K,N,arch); }
+    { int N=vc_range(&r,2,176); int K=vc_range(&r,1,N<32?64:20); static float pv[200]; static int iy[200]; for(int i=0;i<N;i++) pv[i]=(float)vc_gauss(&r)*(vc_chance(&r,1,6)?1e-6f:1.f);
+      /* degenerate bands: both searches replace a vector whose magnitude sum is not inside (EPSILON, 64) -- all-zero, vanishing, huge,
+         infinite or not-a-number -- by a unit pulse at position 0, so the result is defined and must still be a K-pulse codeword */
+      if(vc_chance(&r,1,6)){ int st=vc_below(&r,5); if(st==0) memset(pv,0,sizeof(float)*N); else if(st==1) for(int i=0;i<N;i++) pv[i]*=1e-20f; else if(st==2) for(int i=0;i<N;i++) pv[i]*=1e6f; else if(st==3) pv[vc_below(&r,N)]=vc_chance(&r,1,2)?INFINITY:-INFINITY; else pv[vc_below(&r,N)]=NAN; vc_count("direct_pvq_degenerate_bands",1); }
+      op_pvq_search(pv,iy,K,N,arch); }
     { static float da[1100], db[1100]; int n=vc_range(&r,1,1024); for(int i=0;i<n;i++){ da[i]=x[i%(len+8)]; db[i]=y[i%(len+8)]; } (void)silk_inner_product_FLP(da,db,n,arch); }
     vc_sig3(len&15,(uint64_t)ox|((uint64_t)oy<<2)|((uint64_t)style<<4),len>>4); }
   vc_max("float_kernel_worst_error_over_bound_unit",worst_rel);
